@@ -378,7 +378,9 @@ func stepForms(maxPreds int, full bool) []string {
 		if nm == "a" || full {
 			ops2 := []string{"'v'", "current()/../x", "../x", "''", "../e"}
 			if maxPreds >= 2 {
-				ops2 = operandSrc
+				// (every operand kind, two of the five empty-valued ones: the full square of operandSrc
+				// does not finish within the thorough budget)
+				ops2 = []string{"'v'", "7", "concat('x', 'y')", "/x/y", "current()/../x", "../x", "../../x/y", "''", "../e"}
 			}
 			for _, o1 := range ops2 {
 				for _, o2 := range ops2 {
